@@ -225,6 +225,18 @@ claim("C14", "fault_enumeration",
       TB + " One open known finding (DataFrame after arrays skips the width check; pinned by a repository test). MD3's "
       "refusals are covered in C19.", "DESIGN.md 4 (C14)")
 
+claim("C15", "fault_enumeration",
+      "runtime monitoring with fault injection: the caller overwrites / re-uses what it passed after every call position (alias "
+      "twin against a run on private copies); byte-level argument snapshots around every call; icontract postconditions on "
+      "injector calls",
+      "For the 14 zoo detectors x seven input layouts (ndarray C / Fortran / strided view, single- and mixed-dtype DataFrame, "
+      "re-used one-row ndarray / DataFrame buffer; 1-element label arrays / lists / Series): run A hands over the caller's objects "
+      "and overwrites them in place after every call (reference batches, test batches, single observations), run B uses private "
+      "copies; every output must be equal and no argument may change across a call.  All eight injectors are re-run on further "
+      "layouts (Fortran, strided, mixed-dtype, indexed frames) under postconditions: new object, same container type, input "
+      "bit-for-bit unchanged.  Overwrite positions enumerated per history; histories sampled.",
+      TB + " MD3.give_oracle_label is outside the property's list of calls.", "DESIGN.md 4 (C15)")
+
 NOT_YET = "check not built yet in this revision of /verif (planned: see DESIGN.md section 4); nothing is claimed for it"
 
 
